@@ -202,7 +202,7 @@ fn pcap_frames() -> &'static Vec<Vec<u8>> {
 impl Prop for C01 {
     type Scn = Scn;
     const ID: &'static str = "C01";
-    const ENGINE: &'static str = "netsim";
+    const ENGINE: &'static str = crate::NETSIM_ENGINE;
 
     fn rule() -> &'static str {
         "one evaluation = one faulty history (valid traffic through 1..4 fault kinds, or a corrupted stream/text) into one entry point followed by a clean probe, checked for panic/overflow/hang and for probe-equals-fresh-instance; non-trivial = at least one fault actually fired AND the probe produced at least one result; distinct = distinct event-log hash. Systematic scenarios enumerate TCP option (kind,len,position) encodings, every truncation length and every single-bit flip of the first 80 bytes of fixed frames."
@@ -257,12 +257,12 @@ impl Prop for C01 {
             let vspec = tls::random_spec(r, 1500);
             Entry::TlsReader { stream, cuts, valid: tls::client_hello(r, &vspec) }
         } else if which < 16 {
-            let o = http2::Opts { request: true, hostile: *r.pick(&[http2::Hostile::None, http2::Hostile::BogusRef, http2::Hostile::SizeHuge]), fancy_headers: true, odd_order: true, self_ref: false, continuation: false, big_frame: None, announce_max_frame: false, huge_block: 0, extra_streams: 0 };
+            let o = http2::Opts { request: true, hostile: *r.pick(&[http2::Hostile::None, http2::Hostile::BogusRef, http2::Hostile::SizeHuge]), fancy_headers: true, odd_order: true, self_ref: false, continuation: false, big_frame: None, announce_max_frame: false, huge_block: 0, extra_streams: 0, leading_frames: 0 };
             let (mut stream, _) = http2::connection_start(r, &o);
             corrupt_bytes(r, &mut stream);
             let n = r.urange(1, 8);
             let cuts = r.cuts(stream.len().max(2), n);
-            let (valid, _) = http2::connection_start(r, &http2::Opts { request: true, hostile: http2::Hostile::None, fancy_headers: false, odd_order: false, self_ref: false, continuation: false, big_frame: None, announce_max_frame: false, huge_block: 0, extra_streams: 0 });
+            let (valid, _) = http2::connection_start(r, &http2::Opts { request: true, hostile: http2::Hostile::None, fancy_headers: false, odd_order: false, self_ref: false, continuation: false, big_frame: None, announce_max_frame: false, huge_block: 0, extra_streams: 0, leading_frames: 0 });
             Entry::H2Extractor { stream, cuts, valid }
         } else if which < 19 {
             let mut data = match r.below(6) {
@@ -270,8 +270,8 @@ impl Prop for C01 {
                 5 => http1::exotic_response(r).bytes,
                 0 => http1::request(r, 200).bytes,
                 1 => http1::response(r, 200).bytes,
-                2 => http2::connection_start(r, &http2::Opts { request: true, hostile: http2::Hostile::BogusRef, fancy_headers: true, odd_order: true, self_ref: true, continuation: false, big_frame: None, announce_max_frame: false, huge_block: 0, extra_streams: 0 }).0,
-                _ => http2::connection_start(r, &http2::Opts { request: false, hostile: http2::Hostile::SizeHuge, fancy_headers: true, odd_order: false, self_ref: false, continuation: false, big_frame: None, announce_max_frame: false, huge_block: 0, extra_streams: 0 }).0,
+                2 => http2::connection_start(r, &http2::Opts { request: true, hostile: http2::Hostile::BogusRef, fancy_headers: true, odd_order: true, self_ref: true, continuation: false, big_frame: None, announce_max_frame: false, huge_block: 0, extra_streams: 0, leading_frames: 0 }).0,
+                _ => http2::connection_start(r, &http2::Opts { request: false, hostile: http2::Hostile::SizeHuge, fancy_headers: true, odd_order: false, self_ref: false, continuation: false, big_frame: None, announce_max_frame: false, huge_block: 0, extra_streams: 0, leading_frames: 0 }).0,
             };
             // exotic (legal, unusual) messages are also tried as they are; the rest go through the corruptor
             if !(std::str::from_utf8(&data).is_ok() && r.chance(1, 2)) {
